@@ -21,6 +21,9 @@ pub struct ScriptRng {
     pub misaligned: usize,
     /// injections that were consumed
     pub consumed: usize,
+    /// entropy failure: at this draw `try_fill_bytes` returns an error and the infallible calls panic
+    pub fail_at: Option<usize>,
+    pub failed: bool,
 }
 
 impl ScriptRng {
@@ -31,6 +34,8 @@ impl ScriptRng {
             inject: BTreeMap::new(),
             misaligned: 0,
             consumed: 0,
+            fail_at: None,
+            failed: false,
         }
     }
     pub fn from_rng(r: &mut impl RngCore) -> Self {
@@ -48,7 +53,19 @@ impl ScriptRng {
     pub fn draws_of_len(&self, len: usize) -> Vec<usize> {
         self.log.iter().filter(|d| d.len == len).map(|d| d.index).collect()
     }
+    fn failing_now(&mut self) -> bool {
+        if self.fail_at == Some(self.log.len()) {
+            self.failed = true;
+            // the failed request still counts as a draw
+            self.log.push(Draw { index: self.log.len(), len: 0, injected: false });
+            return true;
+        }
+        false
+    }
     fn draw(&mut self, dest: &mut [u8]) {
+        if self.failing_now() {
+            panic!("scripted entropy failure (infallible RNG call)");
+        }
         let index = self.log.len();
         // keep the base stream position independent of injections
         self.base.fill_bytes(dest);
@@ -85,6 +102,9 @@ impl RngCore for ScriptRng {
         self.draw(dest)
     }
     fn try_fill_bytes(&mut self, dest: &mut [u8]) -> Result<(), rand_core::Error> {
+        if self.failing_now() {
+            return Err(rand_core::Error::from(core::num::NonZeroU32::new(rand_core::Error::CUSTOM_START + 7).unwrap()));
+        }
         self.draw(dest);
         Ok(())
     }
